@@ -109,7 +109,7 @@ def run(ctx):
             enum = n
     if enum is None:
         raise AnalysisError('undecidable shape: Dataset.groupby does not enumerate the group ids')
-    inner = enum.args[0]
+    inner = flow.expand(enum.args[0], g)      # the mapped ids may be held in a local first
     maps = [x for x in ast.walk(inner) if isinstance(x, ast.Call) and (
         A.dotted(x.func) == 'self.map' or (isinstance(x, ast.Call) and A.is_name(x.func, 'group_fn')))]
     once = len([x for x in ast.walk(g) if isinstance(x, ast.Name) and x.id == 'group_fn'
